@@ -93,7 +93,7 @@ Ch(i) == chal[cfg.tids[i]]
 Red == /\ pc = "red" /\ mi <= NP
        /\ LET mb == Mem(mi)  ch == Ch(mi)  k == mb.k IN
           /\ Len(ch) = k + 3
-          /\ Pw2(k) = mb.n * mb.m
+          /\ k <= 20 /\ Pw2(k) = mb.n * mb.m       \* the final check is only ever reached with exactly log2(n*m) rounds
           /\ cx' = [n |-> mb.n, m |-> mb.m, t |-> mb.t, k |-> k, nm |-> mb.n * mb.m,
                     y |-> Reduce(ch[1].wide), z |-> Reduce(ch[2].wide), e |-> Reduce(ch[k+3].wide),
                     es |-> [j \in 1..k |-> Reduce(ch[2+j].wide)], yinv |-> ch[1].inv, esinv |-> [j \in 1..k |-> ch[2+j].inv]]
